@@ -139,10 +139,29 @@ func c12BigEval(c c12Case) (ok bool, sig, detail string) {
 
 // c12CLIRecord builds the fragmented record number k of the CLI menu.
 func c12CLIRecord(k int) seqio.GenBank {
-	n := []int{3, 1, 6, 0, 2, 12, 1}[k%7]
+	n := []int{3, 1, 6, 0, 2, 12, 1, 4, 3}[k%9]
 	tbl, L := c12BigTable(n, 3+k)
 	res := plainResidues(L)
 	cuts := c12BigCuts(n, 0)
+	if k%9 >= 7 {
+		// a record with a source feature, cut only in the gaps between the other features: the source fragments carry
+		// no partial markers (slicing strips them) and are the only thing to repair; k%9 == 8 lists a nested feature
+		// after the one that contains it (a table that is not in sorted-insertion order)
+		var plain gts.FeatureSlice
+		for _, f := range tbl {
+			if f.Key != "misc_feature" {
+				plain = append(plain, f) // without the record-spanning feature: only the source is fragmented
+			}
+		}
+		tbl = append(gts.FeatureSlice{{Key: "source", Loc: gts.Range(0, L), Props: gts.Props{{"organism", "o"}}}}, plain...)
+		cuts = nil
+		for i := 1; i < n; i++ {
+			cuts = append(cuts, 10*i)
+		}
+		if k%9 == 8 {
+			tbl = append(tbl, gts.Feature{Key: "CDS", Loc: gts.Range(1, 5), Props: gts.Props{{"note", "nested-late"}}})
+		}
+	}
 	bounds := append(append([]int{0}, cuts...), L)
 	var pieces []gts.Sequence
 	for i := 0; i+1 < len(bounds); i++ {
@@ -163,7 +182,11 @@ func c12Tables(data []byte) (tables [][]string, errText string) {
 	engine.Safely(func() {
 		sc := seqio.NewAutoScanner(bytes.NewReader(data))
 		for sc.Scan() {
-			tables = append(tables, featureMultiset(sc.Value().Features()))
+			var t []string
+			for _, f := range sc.Value().Features() {
+				t = append(t, encFeature(f))
+			}
+			tables = append(tables, t)
 		}
 		if err := sc.Err(); err != nil {
 			errText = err.Error()
@@ -187,7 +210,11 @@ func c12CLIEval(c c12Case) (ok bool, sig, detail string) {
 		stream.Write(one.Bytes())
 		var rep []gts.Feature
 		engine.Safely(func() { rep = gts.Repair(append([]gts.Feature(nil), gb.Table...)) })
-		want = append(want, featureMultiset(rep))
+		var t []string
+		for _, f := range rep {
+			t = append(t, encFeature(f))
+		}
+		want = append(want, t) // in table order: the command must not reorder the table
 	}
 	res, _ := clidrv.Run([]string{"repair", "--no-cache", "-F", "genbank"}, stream.Bytes(), nil)
 	what := fmt.Sprintf("gts repair on the stream of generated records %v", c.Recs)
